@@ -175,7 +175,8 @@ MOnHR(i) == /\ Quiet /\ i < nextId /\ s2c[i] # <<>>
                    p == sess[i].pool
                    starting == mstate # "hot"
                    ignore == \/ mstate = "hot" /\ mepoch # e
-                             \/ "hr-after-close" \in Fixed /\ closed # "no"
+                             \* (replay restriction: a handler never starts before and ends after the cancellation)
+                             \/ "hr-after-close" \in Fixed /\ (closed = "closed" \/ (Urgent /\ closed = "closing"))
                              \/ "hr-on-closed-session" \in Fixed /\ ~sess[i].alive
                    res0 == IF starting THEN [q \in Pools |-> NoSess] ELSE reserve
                    killed == IF starting THEN ReserveSet ELSE {}
@@ -183,7 +184,7 @@ MOnHR(i) == /\ Quiet /\ i < nextId /\ s2c[i] # <<>>
                IN
                /\ (ignore \/ ~swap \/ nextId <= MaxSess)
                /\ s2c' = [s2c EXCEPT ![i] = Tail(@)]
-               /\ kf' = kf \cup (IF ~ignore /\ closed # "no" THEN {"hr-after-close"} ELSE {})
+               /\ kf' = kf \cup (IF ~ignore /\ closed # "no" /\ "hr-after-close" \notin Fixed THEN {"hr-after-close"} ELSE {})
                          \cup (IF ~ignore /\ ~sess[i].alive THEN {"hr-on-closed-session"} ELSE {})
                          \cup (IF starting /\ e = mepoch /\ mepoch # 0 THEN {"same-epoch-round"} ELSE {})
                /\ IF ignore THEN UNCHANGED <<sess,nextId,mstate,mepoch,cur,reserve,tq>>
@@ -196,6 +197,12 @@ MOnHR(i) == /\ Quiet /\ i < nextId /\ s2c[i] # <<>>
                                  /\ nextId' = nextId + 1
                                  /\ sess' = [Kill(killed) EXCEPT ![nextId] = [epoch |-> e, srv |-> Connect, alive |-> TRUE, sstate |-> "def", pool |-> p]]
             /\ UNCHANGED <<c2s,lstate,lepoch,ack,hrCalls,oldUp,newUp,closed,wpc,wsess,dies,injs,idAtClose,gone>>
+\* repaired handler, Close under way: an event whose handler starts after Close has cancelled the context is dropped; one
+\* whose handler had started before goes through (MOnHR above) and Close, which closes the pools under the manager lock after
+\* the watchers have exited, closes what it swapped in
+MIgnoreClosing(i) == /\ ~Urgent /\ "hr-after-close" \in Fixed /\ closed = "closing" /\ i < nextId /\ s2c[i] # <<>>
+                     /\ s2c' = [s2c EXCEPT ![i] = Tail(@)]
+                     /\ UNCHANGED <<sess,nextId,c2s,lstate,lepoch,ack,hrCalls,oldUp,newUp,mstate,mepoch,cur,reserve,closed,wpc,wsess,tq,dies,injs,kf,idAtClose,gone>>
 \* SessionManager.checkHotRestart ticker branch: every pool has been swapped, acknowledge on the old sessions
 MCheckDone == /\ MDoneEn
               /\ mstate' = "def" /\ tq' = Without(tq, "M")
@@ -249,7 +256,7 @@ StaleWatch(p) == wpc[p] = "watch" /\ wsess[p] # cur[p] /\ sess[wsess[p]].alive /
 
 Next == \/ NewServerStarts \/ OldServerExits \/ NewServerExits
         \/ \E e \in Epochs : LHotRestart(e)
-        \/ \E i \in SessIds : LAck(i) \/ MOnHR(i) \/ SessDies(i) \/ PeerGone(i) \/ ServerNotices(i)
+        \/ \E i \in SessIds : LAck(i) \/ MOnHR(i) \/ MIgnoreClosing(i) \/ SessDies(i) \/ PeerGone(i) \/ ServerNotices(i)
         \/ \E i \in SessIds, e \in Epochs : InjectHR(i, e) \/ InjectAck(i, e)
         \/ LCheckTick \/ LTimeout \/ MCheckDone \/ MTimeout
         \/ \E p \in Pools : WPick(p) \/ WLost(p) \/ WRebuild(p) \/ WRetry(p) \/ WExit(p)
